@@ -152,6 +152,8 @@ def model_term(c, o):
         return None
     if c.get("tag") == "large-torn":
         return None      # records of 300 KiB - 1 MiB: oracle only (lists of a million bytes are too slow inside coqc)
+    if c.get("kind") == "node" or c.get("tag") == "unverified-mix":
+        return None      # oracle-only (real SwarmDriver / unverified inbound puts: outside the lock-step model)
     if c.get("kind") == "stress":
         return None      # oracle-only: real parallelism has no schedule the model could be run on
     if c.get("kind") == "header":
@@ -163,7 +165,7 @@ def model_term(c, o):
 
 
 def show(c, o):
-    if c.get("kind") == "stress":
+    if c.get("kind") in ("stress", "node") or c.get("tag") == "unverified-mix":
         return "true"
     if c.get("kind") == "header":
         return "header_kind %s" % clist(str(b) for b in c["bytes"])
@@ -452,6 +454,85 @@ def settled(d):
     return d["ntasks"] == 0 and not d["chan"] and d.get("chan_count", 0) == 0
 
 
+def node_oracle(c, o, want_restart=True):
+    """NODE mode (real SwarmDriver built by build_node, real handle_local_cmd arms): every value read was put for
+    that key; once settled every accepted write is listed and readable (the most recent one per key); after a
+    restart with the same identity and root directory following a settle, the same holds again."""
+    v = []
+    nk = len(c["keys"])
+    hist = {k: set() for k in range(nk)}
+    last = {k: None for k in range(nk)}
+    settled_ok = False
+    for i, (op, st) in enumerate(zip(c["ops"], o["steps"])):
+        name, out, obs = op["op"], st["out"], st["obs"]
+        if name == "put_local":
+            hist[op["k"]].add(op["v"])
+            if out["ok"]:
+                last[op["k"]] = op["v"]
+            settled_ok = False
+        for k, g in enumerate(obs["gets"]):
+            if g != NF and g not in hist[k]:
+                v.append(("get-foreign-value", "node step %d (%s): get(key %d) returned %s, never put for that key"
+                          % (i, name, k, "value %d" % g if g < NF else "bytes of no known value")))
+        if name == "settle":
+            settled_ok = True
+        judge = (name == "settle") or (name == "restart" and settled_ok and want_restart) or (name == "get" and settled_ok)
+        if judge:
+            listed = set(obs["listed"])
+            for k in range(nk):
+                if last[k] is None:
+                    continue
+                cls_r, cls_l = (("restart-lost-completed-write",) * 2 if name == "restart"
+                                else ("settled-put-unreadable", "settled-put-unlisted"))
+                if obs["gets"][k] != last[k]:
+                    v.append((cls_r, "node step %d (%s): the last accepted write of key %d was value %d, get returns %s (listed: %s)"
+                              % (i, name, k, last[k], obs["gets"][k], k in listed)))
+                if k not in listed:
+                    v.append((cls_l, "node step %d (%s): key %d was written (value %d) but is not listed" % (i, name, k, last[k])))
+    return dedupe(v)
+
+
+def gen_node_cases(rng, n, restarts):
+    """histories for the NODE mode: bursts of 26-40 first-time puts handled before any completion notification,
+    notifications delivered in arbitrary order, overwrites of keys of every kind after they left the 25-entry cache"""
+    cases = []
+    for _ in range(n):
+        nk = rng.randrange(30, 46)
+        keys = gen_keys(rng, nk, False)
+        kinds = [1, 5, 2, 3]
+        vals = [bytes([0x91, rng.choice(kinds)]) + bytes(rng.getrandbits(8) for _ in range(rng.choice([1, 6, 40]))) for _ in range(12)]
+        kind_of = {k: rng.choice(kinds) for k in range(nk)}
+        by_kind = {kd: [i for i, x in enumerate(vals) if x[1] == kd] for kd in kinds}
+        for kd in kinds:
+            while len(by_kind[kd]) < 2:
+                vals.append(bytes([0x91, kd]) + bytes(rng.getrandbits(8) for _ in range(5)))
+                by_kind[kd].append(len(vals) - 1)
+        ops = []
+        burst = rng.sample(range(nk), rng.randrange(26, min(nk, 40) + 1))
+        for k in burst:
+            ops.append({"op": "put_local", "k": k, "v": rng.choice(by_kind[kind_of[k]])})
+            if rng.random() < 0.15:
+                ops.append({"op": "step", "n": rng.randrange(1, 4)})
+        ops.append({"op": "step", "n": rng.choice([0, 30, 200])})
+        ops += [{"op": "deliver", "j": rng.randrange(0, 50)} for _ in range(rng.randrange(0, 12))]
+        ops.append({"op": "settle"})
+        # overwrites (same kind, different bytes) of keys that left the read cache long ago
+        for k in rng.sample(burst[:max(1, len(burst) - 26)] or burst[:1], min(4, max(1, len(burst) - 26))):
+            other = [x for x in by_kind[kind_of[k]]]
+            ops.append({"op": "put_local", "k": k, "v": rng.choice(other)})
+            ops.append({"op": "put_local", "k": k, "v": rng.choice(other)})
+        ops += [{"op": "step", "n": 20}, {"op": "settle"}, {"op": "get", "k": burst[0]}]
+        for _ in range(restarts):
+            ops += [{"op": "restart"}, {"op": "get", "k": burst[0]}]
+            if rng.random() < 0.5:
+                k = rng.choice(burst)
+                ops += [{"op": "put_local", "k": k, "v": rng.choice(by_kind[kind_of[k]])}, {"op": "settle"}]
+        peer = bytes(rng.getrandbits(8) for _ in range(32))
+        cases.append({"kind": "node", "tag": "node", "cfg": {"peer": peer.hex()}, "keys": [k.hex() for k in keys],
+                      "vals": [x.hex() for x in vals], "ops": ops})
+    return cases
+
+
 def oracle(c, o):
     """C01 stated on what the real store did: (1) get only ever returns a value that was handed in for
     that key; (2) in a settled state the last accepted write of a key is readable and listed, a removed
@@ -462,6 +543,8 @@ def oracle(c, o):
         return [("panic", "the store panicked: %s" % o["panic"])]
     if c.get("kind") == "header":
         return []
+    if c.get("kind") == "node":
+        return node_oracle(c, o, want_restart=False)
     if c.get("kind") == "stress":
         v = []
         if o["refused"] or o["accepted"] != c["n"]:
@@ -495,6 +578,14 @@ def oracle(c, o):
                           % (i, op["op"], k, "value %d" % g if g < NF else "bytes of no known value / a wrong key")))
         if op["op"] == "get" and out["get"] != NF and out["get"] not in t.hist[op["k"]]:
             v.append(("get-foreign-value", "step %d: get(key %d) returned a value never handed in for it" % (i, op["k"])))
+        # an UNVERIFIED inbound put never changes what the store holds, lists or serves (it only forwards the record
+        # for validation): its bytes are not "handed to it as a validated record"
+        if op["op"] == "put_unverified":
+            for fld in ("idx", "cache", "files", "gets", "bydist"):
+                if pre[fld] != post[fld]:
+                    v.append(("unverified-put-changed-the-store", "step %d: the unverified put of value %d for key %d changed %s "
+                              "from %s to %s" % (i, op["v"], op["k"], fld, str(pre[fld])[:80], str(post[fld])[:80])))
+                    break
         # a key taken out by this very step (explicit remove, eviction, clean-up, failed write) is not served any more,
         # settled or not: the removal clears the index entry and the read-cache entry at once
         for k in t.removed_now:
@@ -546,6 +637,8 @@ def dedupe(v):
 
 
 def nontrivial(c, o):
+    if c.get("kind") == "node" and o is not None:
+        return ("node", len(c["keys"]), len(c["ops"]) // 10, sum(1 for op in c["ops"] if op["op"] == "restart"))
     if c.get("kind") == "stress" and o is not None:
         return ("stress", c["n"], c["workers"], c["size_max"])
     if o is None or "steps" not in o:
@@ -653,6 +746,24 @@ def gen(ctx):
         cc = mk_case(rng, keys, vals, ops, 16384, 25, "cleanup-%d" % n)
         cc["cfg"]["peer"] = case_peer.hex()
         cases.append(cc)
+    # unverified inbound puts (the kad RecordStore::put) of DIFFERENT bytes for keys whose validated record of every kind
+    # is held / cached / in flight, interleaved with validated puts and reads, with 1-25 entry caches (oracle only)
+    for i in range(40 if quick else 600):
+        cc = gen_history(rng, rng.choice([10, 20, 35]), adversarial=False, caps=(2, 16384, 16384),
+                         weights=dict(put=30, put_local=10, remove=4, get=6, step=25, deliver=15, settle=8), tag="unverified-mix")
+        nk, nv = len(cc["keys"]), len(cc["vals"])
+        ops = []
+        for op in cc["ops"]:
+            ops.append(op)
+            if rng.random() < 0.35:
+                k = op.get("k", rng.randrange(nk))
+                ops.append({"op": "put_unverified", "k": k, "v": rng.randrange(nv)})
+                if rng.random() < 0.5:
+                    ops.append({"op": "get", "k": k})
+        cc["ops"] = ops + [{"op": "settle"}] + [{"op": "put_unverified", "k": k, "v": rng.randrange(nv)} for k in range(nk)] + [{"op": "settle"}]
+        cases.append(cc)
+    # NODE mode (oracle only): the real handle_local_cmd arms on a SwarmDriver built by build_node
+    cases += gen_node_cases(rng, 25 if quick else 400, restarts=0)
     # PARALLEL STRESS (oracle only): multi-thread runtime, 100+ validated puts of 256-512 KiB to distinct keys back
     # to back so that the write tasks of different keys truly overlap, notifications handled concurrently
     for i in range(3 if quick else 40):
